@@ -88,7 +88,7 @@ theorem hasEntry_iff (es : List Entry) (pos : Post.Pos) (k : String) :
     describes it (through properties, pattern properties, additionalProperties, every allOf member, the selected anyOf /
     oneOf alternative, schema dependencies of present keys, at any depth) — nothing else is removed, nothing else is kept. -/
 theorem C19_member_remains_iff_described (cfg : Cfg) (O : Oracles)
-    (hleak : cfg.leaksImportant = false) (hbound : cfg.addlItemsBound = false)
+    (hbound : cfg.addlItemsBound = false)
     (hO : cfg.floatTolerance = true → OExact O)
     (defs : String → Option Schema) (hdefs : DefsWf cfg defs) (n : Nat) (s : Schema)
     (hs : wf cfg (fun name => (defs name).isSome) s = true) (v : JVal) (hv : adm cfg v = true)
@@ -96,7 +96,7 @@ theorem C19_member_remains_iff_described (cfg : Cfg) (O : Oracles)
     k ∈ (pruneMembers (entriesF cfg O defs n s [] v) pos kvs).map Prod.fst
       ↔ (k ∈ kvs.map Prod.fst ∧ ∃ a ∈ appliesF O defs n s [] v, a.pos = pos ∧ a.field = k) := by
   rw [pruneMembers_keys, hasEntry_iff]
-  have hsim := PostProof.entriesF_sim cfg O hleak hbound hO defs hdefs n s hs [] v hv
+  have hsim := PostProof.entriesF_sim cfg O hbound hO defs hdefs n s hs [] v hv
   constructor
   · rintro ⟨h1, e, he, h2⟩; exact ⟨h1, e, (hsim e).mp he, h2⟩
   · rintro ⟨h1, e, he, h2⟩; exact ⟨h1, e, (hsim e).mpr he, h2⟩
@@ -107,7 +107,7 @@ theorem C19_repaired (O : Oracles) (defs : String → Option Schema) (hdefs : De
     (pos : Post.Pos) (kvs : List (String × JVal)) (k : String) :
     k ∈ (pruneMembers (entriesF Cfg.repaired O defs n s [] v) pos kvs).map Prod.fst
       ↔ (k ∈ kvs.map Prod.fst ∧ ∃ a ∈ appliesF O defs n s [] v, a.pos = pos ∧ a.field = k) :=
-  C19_member_remains_iff_described Cfg.repaired O rfl rfl (fun h => by cases h) defs hdefs n s hs v (C01.adm_repaired v) pos kvs k
+  C19_member_remains_iff_described Cfg.repaired O rfl (fun h => by cases h) defs hdefs n s hs v (C01.adm_repaired v) pos kvs k
 
 /-! non-vacuity: a schema with a defaulted property under an anyOf alternative meets the hypotheses -/
 def sPost : Schema :=
